@@ -707,8 +707,17 @@ Ltac kpd_go := repeat kpd1.
 Lemma kpd_fetch_flow_collection_start F seq : kpd (fetch_flow_collection_start ops F seq) 0 0.
 Proof. unfold fetch_flow_collection_start. kpd_go. Qed.
 
+(* /repo 88700d3: the closer is first compared with the level it closes; that test only reads the state *)
+Lemma neu_check_flow_closer seq : neu (@check_flow_closer I seq).
+Proof. unfold check_flow_closer. neu_go. Qed.
+Hint Resolve neu_check_flow_closer : neu.
+
 Lemma kpd_fetch_flow_collection_end F seq : kpd (fetch_flow_collection_end ops F seq) 0 0.
-Proof. unfold fetch_flow_collection_end. kpd_go; destruct seq; reflexivity. Qed.
+Proof.
+  unfold fetch_flow_collection_end.
+  eapply kpd_bind; [apply kpd_neu, neu_check_flow_closer|intros ?].
+  kpd_go; destruct seq; reflexivity.
+Qed.
 Hint Resolve kpd_fetch_flow_collection_start kpd_fetch_flow_collection_end : kpd.
 Hint Resolve neu_fetch_stream_start neu_fetch_stream_end neu_fetch_directive neu_fetch_tag neu_fetch_anchor
   neu_fetch_flow_entry neu_fetch_block_entry neu_fetch_block_scalar neu_fetch_flow_scalar neu_fetch_plain_scalar
